@@ -63,19 +63,14 @@ class ReportPriority(SCSICommand):
         """
         result = {}
         #  get the data after the ppd_len
-        _data = data[4 : scsi_ba_to_int(data[:4])]
+        _data = data[4 : scsi_ba_to_int(data[:4]) + 4]
         _descriptors = []
         while len(_data):
             _r = {}
-            _dict = dict(cls._datain_bits.copy)
-            _dict.update(
-                {
-                    "transport_id": [hex(scsi_ba_to_int(_data[6:7])), 8],
-                }
-            )
-            decode_bits(_data[: 8 + scsi_ba_to_int(_data[6:7])], _dict, _r)
+            decode_bits(_data, cls._data_bits, _r)
+            _r["transport_id"] = _data[8 : 8 + _r["adlen"]]
             _descriptors.append(_r)
-            _data = _data[scsi_ba_to_int(_r["adlen"]) + 8 :]
+            _data = _data[_r["adlen"] + 8 :]
         result.update(
             {
                 "priority_descriptors": _descriptors,
@@ -93,19 +88,14 @@ class ReportPriority(SCSICommand):
         """
         result = bytearray(4)
         if "priority_descriptors" not in data:
-            result[:4] = scsi_int_to_ba(len(result), 4)
+            result[:4] = scsi_int_to_ba(len(result) - 4, 4)
             return result
 
         for l in data["priority_descriptors"]:
-            _r = bytearray(len(l))
-            _dict = dict(cls._datain_bits.copy)
-            _dict.update(
-                {
-                    "transport_id": [hex(scsi_ba_to_int(len(l) - 8)), 8],
-                }
-            )
-            encode_dict(l, _dict, _r)
-            result += _r
+            _r = bytearray(8)
+            encode_dict(l, cls._data_bits, _r)
+            _r[6:8] = scsi_int_to_ba(len(l["transport_id"]), 2)
+            result += _r + l["transport_id"]
 
-        result[:4] = scsi_int_to_ba(len(result), 4)
+        result[:4] = scsi_int_to_ba(len(result) - 4, 4)
         return result
